@@ -10,6 +10,7 @@ import (
 	"github.com/ClickHouse/ch-go/proto"
 
 	"verif/refcol"
+	"verif/refwire"
 	"verif/vk"
 )
 
@@ -151,7 +152,7 @@ func rowsSig(col proto.Column) string {
 
 // C15 — the pure-Go build and the default build of the codecs behave identically.
 func C15(c *vk.Ctx) {
-	c.Rule("each of the 35 column codecs that exist in two build variants (33 generated + Bool + UUID) x inputs {all 256 values for 1-byte elements, all 65536 values for 2-byte elements, for wider elements 1..5 rows of the patterns zero / all-ones / counter / high bit / low byte and a 7-row filler, 0 rows} x target {fresh, reset after use} x DecodeColumn of the whole input and of EVERY truncation of it x EncodeColumn into an empty buffer and into buffers pre-filled with 1..9 bytes x WriteColumn+Flush. Each build checks encode(decode(x)) = x and prefix preservation itself; the driver then compares the two builds' transcripts (decoded row values, produced bytes, error classes) line by line. Bool is fed only the bytes both builds accept (0/1); other bytes are decoded in each build only to show that nothing panics. distinct_nontrivial = transcript lines.")
+	c.Rule("each of the 35 column codecs that exist in two build variants (33 generated + Bool + UUID) x inputs {all 256 values for 1-byte elements, all 65536 values for 2-byte elements, for wider elements 1..5 rows of the patterns zero / all-ones / counter / high bit / low byte and a 7-row filler, 0 rows} x target {fresh, reset after use} x DecodeColumn of the whole input and of EVERY truncation of it x the same column read twice in a row from one reader (plain; as two LZ4 frames; as two None frames; as one column spread over two ZSTD frames followed by a third frame) x EncodeColumn into an empty buffer and into buffers pre-filled with 1..9 bytes x WriteColumn+Flush. Each build checks encode(decode(x)) = x and prefix preservation itself; the driver then compares the two builds' transcripts (decoded row values, produced bytes, error classes) line by line. Bool is fed only the bytes both builds accept (0/1); other bytes are decoded in each build only to show that nothing panics. distinct_nontrivial = transcript lines.")
 	for ci, cd := range codecs15() {
 		if c.Only == "" && !c.Mine(int64(ci)) {
 			continue
@@ -200,6 +201,40 @@ func C15(c *vk.Ctx) {
 						line += fmt.Sprintf(" write=%016x", vk.Hash(sink.got))
 					} else if rows > 0 {
 						c.Violation("C15/decode-error/"+cd.name, id, err.Error(), nil)
+					}
+					// the same column twice in a row from ONE reader, plain and inside compression
+					// frames (a second frame already buffered behind the first; one column spread
+					// over two frames): both decodes must give the input back
+					if err == nil && rows > 0 && target == "fresh" {
+						h := len(in) / 2
+						for _, fr := range []struct {
+							name   string
+							stream []byte
+							comp   bool
+						}{
+							{"plain-x2", append(append([]byte{}, in...), in...), false},
+							{"lz4-x2", append(refwire.Compress(refwire.MethodLZ4, in), refwire.Compress(refwire.MethodLZ4, in)...), true},
+							{"none-x2", append(refwire.Compress(refwire.MethodNone, in), refwire.Compress(refwire.MethodNone, in)...), true},
+							{"zstd-split", append(append(refwire.Compress(refwire.MethodZSTD, in[:h]), refwire.Compress(refwire.MethodZSTD, in[h:])...), refwire.Compress(refwire.MethodZSTD, in)...), true},
+						} {
+							rd := proto.NewReader(bytes.NewReader(fr.stream))
+							if fr.comp {
+								rd.EnableCompression()
+							}
+							for k := 0; k < 2; k++ {
+								cc := cd.mk()
+								derr := cc.DecodeColumn(rd, rows)
+								var back proto.Buffer
+								if derr == nil {
+									cc.EncodeColumn(&back)
+								}
+								if derr != nil || !bytes.Equal(back.Buf, in) {
+									c.Violation("C15/stream-decode/"+fr.name+"/"+cd.name, fmt.Sprintf("%s/%s/column=%d", id, fr.name, k), fmt.Sprintf("column %d of two identical columns read from one %s reader: err=%v, re-encoded %s, input %s", k, fr.name, derr, vk.Hex(back.Buf), vk.Hex(in)), nil)
+									break
+								}
+								line += fmt.Sprintf(" %s%d=%016x", fr.name, k, vk.Hash(back.Buf))
+							}
+						}
 					}
 					c.T(cd.name+"|"+name+"/"+target, line)
 					c.Eval("whole inputs", 1)
